@@ -10,7 +10,7 @@ hdr = "| id | property | change (what a sub-agent that saw only the property tex
 p = '/verif/DESIGN.md'
 s = open(p).read()
 a = s.index('| id | property | change (what a sub-agent')
-b = s.index('Three checks missed a seeded change at first')
+b = s.index('Five checks missed a seeded change at first')
 s = s[:a] + hdr + "\n".join(rows) + "\n\n" + s[b:]
 open(p, 'w').write(s)
 print(len(rows), "rows")
